@@ -147,6 +147,7 @@ type coord struct {
 	kind   string
 	labels []string // for cEnum
 	ranged bool     // the proof system proves a range for this witness (range test applies)
+	nz     bool     // zero makes the public statement itself degenerate (identity point): the library refuses it by design, so it is not a witness "inside the documented range"
 }
 
 func bitsOf(kind string) (int, string) {
@@ -167,6 +168,9 @@ func latticeLabels(c coord) []string {
 		}
 		return out
 	case cScalar:
+		if c.nz {
+			return []string{"1", "q-1", "rand"}
+		}
 		return []string{"0", "1", "q-1", "rand"}
 	}
 	return c.labels
@@ -189,6 +193,9 @@ func diagLabel(c coord, which string) string {
 	case cScalar:
 		switch which {
 		case "zero":
+			if c.nz {
+				return "1"
+			}
 			return "0"
 		case "max":
 			return "q-1"
